@@ -355,4 +355,22 @@ theorem configHeaders_eq (strs : List Str) :
 theorem http2NeedsSSL_eq (ssl : Bool) : constructible .http2 ssl = (!Gen.HttpWire.http2NeedsSSL || ssl) := by
   cases ssl <;> rfl
 
+/-! ### round 6: code the anchored files depend on -/
+
+/-- lib/netutil ValidHTTPMethod (a method is a non-empty token, "" stands for GET: the model's `validMethod`); the ammo handed
+to the gun carries the request BuildRequest made, its tag and id, nothing else (`NewGunAmmo`, `GunAmmo.Request`); `Ammo.Setup`
+stores method / url / body / header / tag AS GIVEN after the two refusals (no copy, no normalisation: the model's `buildAmmo`
+reads them back unchanged) and `Reset` clears them; `NewDecoder` decodes the `headers` option once and hands it to the decoder
+of the configured type; the default gun configurations: `ssl` false for the http and connect guns, true for http2, the optional
+features off, the client = DefaultClientConfig() (no redirects, DefaultTransportConfig, dialer with dns-cache, 3 s timeout); NewDialer
+copies the dialer options and wraps the dialer into the DNS cache only when `dns-cache` is on. -/
+theorem r6_shape :
+    Gen.HttpWire.validMethodSrc = ["ValidHTTPMethod: if(==(param0,lit:\"\")){param0=lit:\"GET\"} ; return &&(>(len(param0),lit:0),==(strings.IndexFunc(param0,isNotToken),lit:-1))", "isNotToken: return !httpguts.IsTokenRune(param0)"] ∧
+    Gen.HttpWire.gunAmmoSrc = ["GunAmmo.Request: def:=netsample.Acquire(recv.tag) ; netsample.Acquire(recv.tag).SetID(recv.id) ; return recv.req,netsample.Acquire(recv.tag)", "GunAmmo.IsInvalid: return recv.isInvalid", "NewGunAmmo: return GunAmmo{id=param2,req=param0,tag=param1}"] ∧
+    Gen.HttpWire.ammoSetupSrc = ["Ammo.Setup: if(def:=netutil.ValidHTTPMethod(param0);!netutil.ValidHTTPMethod(param0)){return errors.New(concat(lit:\"invalid HTTP method \",param0))} ; if(def:=url.Parse(param1);!=(url.Parse(param1)#1,nil)){return fmt.Errorf(lit:\"invalid URL %s; err %w \",param1,url.Parse(param1)#1)} ; recv.method=param0 ; recv.body=param2 ; recv.url=param1 ; recv.tag=param4 ; recv.header=param3 ; return nil", "Ammo.Reset: recv.method=lit:\"\" ; recv.body=nil ; recv.url=lit:\"\" ; recv.tag=lit:\"\" ; recv.header=nil", "RawAmmo.Reset: recv.buff=nil ; recv.filePosition=lit:0 ; recv.tag=lit:\"\" ; recv.commonHeaders=nil"] ∧
+    Gen.HttpWire.newDecoderSrc = ["NewDecoder: def:=util.DecodeHTTPConfigHeaders(param0.Headers) ; if(!=(util.DecodeHTTPConfigHeaders(param0.Headers)#1,nil)){return } ; stmt:switch conf.Decoder { case config.DecoderJSONLine: d, err = newJsonlineDecoder(file, conf, decodedConfigHeaders) case config.DecoderRaw: d = newRawDecoder(file, conf, decodedConfigHeaders) case config.DecoderURI: d = newURIDecoder(file, conf, decodedConfigHeaders) case config.DecoderURIPost: d = newURIPostDecoder(file, conf, decodedConfigHeaders) default: err = ErrUnknown } ; return "] ∧
+    Gen.HttpWire.gunDefaults = ["DefaultHTTPGunConfig: return GunConfig{AnswLog=AnswLogConfig{Enabled=const:false,Filter=const:\"error\",Path=const:\"answ.log\"},AutoTag=AutoTagConfig{Enabled=const:false,NoTagOnly=const:true,URIElements=const:2},Client=DefaultClientConfig(),HTTPTrace=HTTPTraceConfig{DumpEnabled=const:false,TraceEnabled=const:false},SSL=const:false}", "DefaultHTTP2GunConfig: return GunConfig{AnswLog=AnswLogConfig{Enabled=const:false,Filter=const:\"error\",Path=const:\"answ.log\"},AutoTag=AutoTagConfig{Enabled=const:false,NoTagOnly=const:true,URIElements=const:2},Client=DefaultClientConfig(),HTTPTrace=HTTPTraceConfig{DumpEnabled=const:false,TraceEnabled=const:false},SSL=const:true}", "DefaultConnectGunConfig: return GunConfig{AnswLog=AnswLogConfig{Enabled=const:false,Filter=const:\"error\",Path=const:\"answ.log\"},AutoTag=AutoTagConfig{Enabled=const:false,NoTagOnly=const:true,URIElements=const:2},Client=DefaultClientConfig(),HTTPTrace=HTTPTraceConfig{DumpEnabled=const:false,TraceEnabled=const:false},SSL=const:false}"] ∧
+    Gen.HttpWire.clientDefaults = ["DefaultClientConfig: return ClientConfig{Dialer=DefaultDialerConfig(),Redirect=const:false,Transport=DefaultTransportConfig()}", "DefaultDialerConfig: return DialerConfig{DNSCache=const:true,DualStack=const:true,KeepAlive=const:120000000000,Timeout=const:3000000000}", "NewDialer: def:=&net.Dialer{DualStack=param0.DualStack,FallbackDelay=param0.FallbackDelay,KeepAlive=param0.KeepAlive,Timeout=param0.Timeout} ; if(!param0.DNSCache){return &composite:net.Dialer} ; return netutil.NewDNSCachingDialer(&composite:net.Dialer,netutil.DefaultDNSCache)"] :=
+  ⟨rfl, rfl, rfl, rfl, rfl, rfl⟩
+
 end Pandora.Bridge.HttpWire
